@@ -21,6 +21,20 @@ def _isclass(cl):
         return False
 
 
+def _tag_key(tag) -> str:
+    """Container key of a tag given as int, decimal string or FTag enum.
+
+    All spellings of the same integer ('35', 35, '035', ' 35', FTag.MsgType) share one
+    key: the canonical decimal text. Anything that is not an integer is its own key
+    (never present in a container, because set() refuses it).
+    """
+    t = str(tag)
+    try:
+        return str(int(t))
+    except ValueError:
+        return t
+
+
 class MessageDirection(Enum):
     """Direction of the message INBOUND/OUTBOUND."""
 
@@ -94,7 +108,7 @@ class FIXContainer:
         except ValueError:
             raise FIXMessageError("Tags must be only integers")
 
-        t = str(tag)
+        t = _tag_key(tag)
 
         if _isclass(value):
             # Case for setting tags as errors (allow overwriting by Exception)
@@ -122,7 +136,7 @@ class FIXContainer:
             RepeatingTagError: tag was repeated in decoded message, probably msg group
             TagNotFoundError: tag was not found in message
         """
-        result = self.tags.get(str(tag), default)
+        result = self.tags.get(_tag_key(tag), default)
         if result is TagNotFoundError:
             raise TagNotFoundError(f"tag={tag} not found in message")
         elif result is RepeatingTagError:
@@ -147,7 +161,7 @@ class FIXContainer:
             True - if repeating group
             False - simple tag
         """
-        tag_val = self.tags.get(str(tag), None)
+        tag_val = self.tags.get(_tag_key(tag), None)
         if tag_val is not None:
             if isinstance(tag_val, _FIXRepeatingGroupContainer):
                 return True
@@ -167,7 +181,7 @@ class FIXContainer:
         Raises:
             FIXMessageError: incorrect group type/value
         """
-        tag = str(tag)
+        tag = _tag_key(tag)
 
         if isinstance(group, dict):
             group = FIXContainer(group)
@@ -193,7 +207,7 @@ class FIXContainer:
             DuplicatedTagError: group with the same tag already exists
             FIXMessageError: incorrect group type/value
         """
-        tag = str(tag)
+        tag = _tag_key(tag)
 
         if tag in self:
             raise DuplicatedTagError(f"group with {tag=} already exists")
@@ -224,7 +238,7 @@ class FIXContainer:
             UnmappedRepeatedGrpError: repeating group is not handled by protocol class
             TagNotFoundError: tag not found
         """
-        tag = str(tag)
+        tag = _tag_key(tag)
         is_group = self.is_group(tag)
         if is_group is None:
             raise TagNotFoundError(f"missing tag group {tag=}")
@@ -318,11 +332,11 @@ class FIXContainer:
 
     def __delitem__(self, tag: str | int):
         """Deletes tag from message."""
-        del self.tags[str(tag)]
+        del self.tags[_tag_key(tag)]
 
     def __contains__(self, item: str | int):
         """Checks if container contains tags."""
-        return str(item) in self.tags
+        return _tag_key(item) in self.tags
 
     def __str__(self):
         """As string."""
